@@ -148,3 +148,27 @@ Proof.
   intros a b Ha Hb Hlt. simpl in Ha, Hb.
   in_cases Ha; in_cases Hb; try contradiction; subst a b; simpl in *; lra.
 Qed.
+
+(* ---- binary64 witnesses (evaluated by vm_compute on the F64 instance) ---- *)
+From Coq Require Import PrimFloat.
+
+(* pinned pit(random=False): 11 members all below the observation give
+   percentileofscore/100 = 1.0000000000000002 *)
+Definition eleven_below : list float :=
+  [0; 1; 2; 3; 4; 5; 6; 7; 8; 9; 10]%float.
+
+Lemma pit_rank_noclip_exceeds_one_F64 :
+  PrimFloat.ltb 1%float (pit_rank_noclip F64 KF 11%float eleven_below) = true /\
+  PrimFloat.eqb (pit_rank F64 KF 11%float eleven_below) 1%float = true.
+Proof. split; vm_compute; reflexivity. Qed.
+
+(* pinned c_ensrank: with eps > 1 the sentinel value+1 hides the first and the
+   last tie sequence: two identical single-member ensembles get F = -1 instead
+   of 1/2; the repaired scan gives 1/2.  Same for values beyond 2^53. *)
+Lemma sentinel_scan_wrong_F64 :
+  (PrimFloat.eqb (pairF_sentinel F64 KF 2 [0x1p+3] [0x1p+3]) (-1) = true /\
+   PrimFloat.eqb (pairF F64 KF 2 [0x1p+3] [0x1p+3]) 0.5 = true /\
+   PrimFloat.eqb (pairF_sentinel F64 KF 0x1p-20 [0x1p+62] [0x1p+61]) (-1) = true /\
+   PrimFloat.eqb (pairF F64 KF 0x1p-20 [0x1p+62] [0x1p+61]) 1 = true)%float.
+Proof. repeat split; vm_compute; reflexivity. Qed.
+
